@@ -1075,3 +1075,7 @@ mod tests {
         assert!(matches!(ops_tracker.ops[0], BranchOp::Insert(k,..) if k == key(0)));
     }
 }
+
+#[cfg(kani)]
+#[path = "/verif/units/kani/update_branch_ops.rs"]
+pub(crate) mod verif_kani;
